@@ -1,5 +1,7 @@
 import Bptk.Core.C04
 import Bptk.Proofs.PyFrag
+import Bptk.Proofs.PyDet
+import Bptk.Props.C05
 import Mathlib.Algebra.Order.Floor.Ring
 import Mathlib.Data.Rat.Floor
 import Mathlib.Tactic.Linarith
@@ -321,6 +323,28 @@ theorem elem_ok (hG : X.GridOK) (hA : X.Acyclic) {n k B : Nat} (hk : k ≤ X.N)
           · exact ⟨_, rfl⟩
     exact ⟨v, fun f hf => by simp [Ctx.eu, eulerF, hel, h1' f hf, hv],
       by simpa [compileElem] using Evals.lerp h2 hv⟩
+  | gflow nn e pts =>
+    obtain ⟨x, h1, h2⟩ := cEx_ok hnl hvl e (by simpa [sameRefs] using hsame)
+    have h1' : ∀ f, B ≤ f → evalEx X.C X.M.dtv (X.tv k) (fun m => eulerF X.C X.M X.tv f m k) e = some x :=
+      fun f hf => by simpa [Ctx.eu] using h1 f hf
+    have hp := hA.pts n _ hel
+    obtain ⟨v, hv⟩ : ∃ v, lerp X.C pts x = some v := by
+      cases pts with
+      | nil => simp [hasPoints] at hp
+      | cons p rest =>
+        simp only [lerp]
+        split
+        · exact ⟨_, rfl⟩
+        · split
+          · exact ⟨_, rfl⟩
+          · exact ⟨_, rfl⟩
+    cases nn with
+    | true =>
+      exact ⟨pyMax X.C (X.C.int 0) v, fun f hf => by simp [Ctx.eu, eulerF, hel, h1' f hf, hv],
+        by simpa [compileElem] using Evals.mx (Evals.int B _ 0) (Evals.lerp h2 hv)⟩
+    | false =>
+      exact ⟨v, fun f hf => by simp [Ctx.eu, eulerF, hel, h1' f hf, hv],
+        by simpa [compileElem] using Evals.lerp h2 hv⟩
   | stock init ins outs =>
     cases k with
     | zero =>
@@ -411,6 +435,7 @@ theorem compileDsl_toDsl (n : Nat) (el : Elem α) : compileDslElem n (toDsl el) 
   | flow nn e => cases nn <;> simp [toDsl, compileDslElem, compileElem]
   | aux e => simp [toDsl, compileDslElem, compileElem]
   | gf e pts => simp [toDsl, compileDslElem, compileElem]
+  | gflow nn e pts => cases nn <;> simp [toDsl, compileDslElem, compileElem]
 
 /-! ### The property -/
 
@@ -684,6 +709,184 @@ theorem skelPyP_parses (s : String) (init : Py) (hinit : WLb 0 init = true) (ins
   omega
 end levels
 
+/-! ### Wave 2 (1): the denotation of the stock text, for ANY number of inflows and outflows -/
+
+section names
+/-! the string round trip for element names -/
+
+theorem charDigit_digitChar (d : Nat) (h : d < 10) : charDigit (digitChar d) = some d := by
+  have : d = 0 ∨ d = 1 ∨ d = 2 ∨ d = 3 ∨ d = 4 ∨ d = 5 ∨ d = 6 ∨ d = 7 ∨ d = 8 ∨ d = 9 := by omega
+  rcases this with rfl | rfl | rfl | rfl | rfl | rfl | rfl | rfl | rfl | rfl <;> decide
+
+theorem decAcc_append (acc : Nat) (l : List Char) (c : Char) :
+    decAcc acc (l ++ [c]) = (decAcc acc l).bind (fun a => (charDigit c).map (fun d => a * 10 + d)) := by
+  induction l generalizing acc with
+  | nil => simp [decAcc]; cases charDigit c <;> simp
+  | cons x xs ih =>
+    simp only [List.cons_append, decAcc]
+    cases charDigit x with
+    | none => simp
+    | some d => exact ih _
+
+theorem encNat_ne_nil (n : Nat) : encNat n ≠ [] := by
+  rw [encNat]; split <;> simp
+
+theorem decAcc_encNat (n : Nat) : decAcc 0 (encNat n) = some n := by
+  induction n using Nat.strongRecOn with
+  | _ n ih =>
+    rw [encNat]
+    split
+    · rename_i h; simp [decAcc, charDigit_digitChar n h]
+    · rename_i h
+      rw [decAcc_append, ih (n / 10) (by omega), charDigit_digitChar _ (by omega)]
+      simp; omega
+
+theorem decNat_encNat (n : Nat) : decNat (encNat n) = some n := by
+  have := encNat_ne_nil n
+  cases h : encNat n with
+  | nil => exact absurd h this
+  | cons c cs => simp only [decNat]; rw [← h]; exact decAcc_encNat n
+
+/-- `e<decimal n>` decodes to `n`, for every `n` (the lemma the wave-1 report said was missing) -/
+theorem nameIx_nmG (n : Nat) : nameIx (nmG n) = some n := by
+  simp [nameIx, nmG, decNat_encNat]
+
+/-- the literal table of the per-run obligations agrees with the generic coding -/
+theorem nmS_eq_nmG (n : Nat) (hn : n < 10) : nmS n = nmG n := by
+  have : n = 0 ∨ n = 1 ∨ n = 2 ∨ n = 3 ∨ n = 4 ∨ n = 5 ∨ n = 6 ∨ n = 7 ∨ n = 8 ∨ n = 9 := by omega
+  rcases this with rfl | rfl | rfl | rfl | rfl | rfl | rfl | rfl | rfl | rfl <;>
+    (rw [nmG, encNat]; decide)
+end names
+
+section denote
+open Bptk.Py
+
+theorem tmOfPy_memo (ix : String → Option Nat) (nm : String) (te : TE) :
+    tmOfPy ix (memoPy nm te) = (ix nm).map (fun n => Tm.memo n te) := by
+  cases te <;> rfl
+
+theorem erase_memoPy (nm : String) (te : TE) : erase (memoPy nm te) = memoPy nm te := by
+  cases te <;> rfl
+
+theorem erase_sumPy (te : TE) (ns : List String) (acc : Py) :
+    erase (sumPy te acc ns) = sumPy te (erase acc) ns := by
+  induction ns generalizing acc with
+  | nil => rfl
+  | cons n ns ih => simp only [sumPy]; rw [ih]; simp [erase, erase_memoPy]
+
+/-- erasing the parentheses `StockExpressions` writes gives the intended net-flow tree -/
+theorem erase_netPyP (ins outs : List String) : erase (netPyP ins outs) = netPy ins outs := by
+  match ins, outs with
+  | [], [] => rfl
+  | i :: is, [] => simp [netPyP, netPy, erase, erase_sumPy, erase_memoPy]
+  | [], o :: os => simp [netPyP, netPy, erase, erase_sumPy, erase_memoPy]
+  | i :: is, o :: os => simp [netPyP, netPy, erase, erase_sumPy, erase_memoPy]
+
+theorem tmOfPy_bin (ix : String → Option Nat) (k : BinOp) (l r : Py) (o : Op) (a b : Tm String)
+    (ho : opOf k = some o) (hl : tmOfPy ix l = some a) (hr : tmOfPy ix r = some b) :
+    tmOfPy ix (.bin k l r) = some (.bin o a b) := by
+  simp [tmOfPy, ho, hl, hr]
+
+theorem tmOfPy_ifStart (ix : String → Option Nat) (x y : Py) (a b : Tm String)
+    (hx : tmOfPy ix x = some a) (hy : tmOfPy ix y = some b) :
+    tmOfPy ix (.ite x (.bin .le (.name "t") (.attr (.name "self") "starttime")) y) = some (.ifStart a b) := by
+  simp [tmOfPy, hx, hy]
+
+variable (ix : String → Option Nat) (nm : Nat → String) (hix : ∀ n, ix (nm n) = some n)
+include hix
+
+theorem tmOfPy_sumPy (te : TE) (ns : List Nat) (acc : Py) (a : Tm String) (h : tmOfPy ix acc = some a) :
+    tmOfPy ix (sumPy te acc (ns.map nm)) = some (sumTm te a ns) := by
+  induction ns generalizing acc a with
+  | nil => simpa [sumPy, sumTm] using h
+  | cons n ns ih =>
+    simp only [List.map_cons, sumPy, sumTm]
+    apply ih
+    exact tmOfPy_bin ix .add _ _ .add _ _ rfl h (by rw [tmOfPy_memo, hix]; rfl)
+
+theorem tmOfPy_sumPy_memo (n : Nat) (ns : List Nat) :
+    tmOfPy ix (sumPy .prev (memoPy (nm n) .prev) (ns.map nm)) = some (sumTm .prev (.memo n .prev) ns) :=
+  tmOfPy_sumPy ix nm hix .prev ns _ _ (by rw [tmOfPy_memo, hix]; rfl)
+
+/-- the net-flow tree denotes the model's net-flow code (four shapes of `StockExpressions`), all n -/
+theorem tmOfPy_netPy (ins outs : List Nat) :
+    tmOfPy ix (netPy (ins.map nm) (outs.map nm)) = some (netTm ins outs) := by
+  match ins, outs with
+  | [], [] => rfl
+  | i :: is, [] => simpa [netPy, netTm] using tmOfPy_sumPy_memo ix nm hix i is
+  | [], o :: os =>
+    simp only [List.map_nil, List.map_cons, netPy, netTm]
+    exact tmOfPy_bin ix .mul _ _ .mul _ _ rfl rfl (tmOfPy_sumPy_memo ix nm hix o os)
+  | i :: is, o :: os =>
+    simp only [List.map_cons, netPy, netTm]
+    exact tmOfPy_bin ix .sub _ _ .sub _ _ rfl (tmOfPy_sumPy_memo ix nm hix i is) (tmOfPy_sumPy_memo ix nm hix o os)
+
+/-- **generic denotation theorem**: for ANY lists of inflows and outflows, any stock index, any initial
+value text, and any name coding with a left inverse: the emitted stock text (parentheses erased) denotes
+the `Tm` code `stockTm` that `compile` assigns to the stock -/
+theorem skelPyP_denotes (s : Nat) (init : Py) (it : Tm String) (hinit : tmOfPy ix (erase init) = some it)
+    (ins outs : List Nat) :
+    tmOfPy ix (erase (skelPyP (nm s) init (ins.map nm) (outs.map nm))) = some (stockTm s it ins outs) := by
+  have hnet := tmOfPy_netPy ix nm hix ins outs
+  have hmul : tmOfPy ix (.bin .mul (selfAttr "dt") (netPy (ins.map nm) (outs.map nm))) = some (.bin .mul .dt (netTm ins outs)) :=
+    tmOfPy_bin ix .mul _ _ .mul _ _ rfl rfl hnet
+  have hadd : tmOfPy ix (.bin .add (memoPy (nm s) .prev) (.bin .mul (selfAttr "dt") (netPy (ins.map nm) (outs.map nm))))
+      = some (.bin .add (.memo s .prev) (.bin .mul .dt (netTm ins outs))) :=
+    tmOfPy_bin ix .add _ _ .add _ _ rfl (by rw [tmOfPy_memo, hix]; rfl) hmul
+  simp only [skelPyP, erase, erase_netPyP, erase_memoPy, selfAttr, stockTm] at *
+  exact tmOfPy_ifStart ix _ _ _ _ hinit hadd
+end denote
+
+section alln
+open Bptk.Py
+
+/-- **syntax tie for all n** (`skelPyP_parses` + `skelPyP_denotes` + A1 soundness/determinism): for every
+stock index, every well-levelled initial-value text and every list of inflows and outflows, the stock
+text (i) parses (CPython binding powers) to the intended parenthesised tree, (ii) that tree denotes the
+model's stock code, and (iii) whatever tree the executable parser returns for the text denotes the
+model's stock code too -/
+theorem stock_text_denotes (s : Nat) (init : Py) (hw : WLb 0 init = true) (it : Tm String)
+    (hinit : tmOfPy nameIx (erase init) = some it) (ins outs : List Nat) :
+    Parses (pr (skelPyP (nmG s) init (ins.map nmG) (outs.map nmG))) (skelPyP (nmG s) init (ins.map nmG) (outs.map nmG)) ∧
+    tmOfPy nameIx (erase (skelPyP (nmG s) init (ins.map nmG) (outs.map nmG))) = some (stockTm s it ins outs) ∧
+    ∀ p, parse (pr (skelPyP (nmG s) init (ins.map nmG) (outs.map nmG))) = some p →
+      tmOfPy nameIx (erase p) = some (stockTm s it ins outs) := by
+  have h1 := skelPyP_parses (nmG s) init hw (ins.map nmG) (outs.map nmG)
+  have h2 := skelPyP_denotes nameIx nmG nameIx_nmG s init it hinit ins outs
+  refine ⟨h1, h2, ?_⟩
+  intro p hp
+  rw [parses_unique _ _ _ (parse_sound _ _ hp) h1]
+  exact h2
+
+/-- the wave-2 probe of larger shapes, run by the driver on the tokens the real `StockExpressions` +
+`parseExpression` emit: if it answers `ok`, the emitted tokens parse to the skeleton and denote the
+stock code of a stock with `nin` inflows and `nout` outflows — for any `nin`, `nout` -/
+theorem skeletonTextOK_sound (nin nout : Nat) (toks : List Tok) (h : skeletonTextOK nin nout toks = true) :
+    Parses toks (skelPyP (nmG 0) (.num "7.5") ((flowIxs 1 nin).map nmG) ((flowIxs (1 + nin) nout).map nmG)) ∧
+    ∀ p, parse toks = some p →
+      tmOfPy nameIx (erase p) = some (stockTm 0 (.lit "7.5") (flowIxs 1 nin) (flowIxs (1 + nin) nout)) := by
+  simp only [skeletonTextOK, decide_eq_true_eq] at h
+  subst h
+  have h := stock_text_denotes 0 (.num "7.5") (by decide) (.lit "7.5") (by decide) (flowIxs 1 nin) (flowIxs (1 + nin) nout)
+  exact ⟨h.1, h.2.2⟩
+
+theorem pr_sumPy (te : TE) (ns : List String) (acc : Py) :
+    pr (sumPy te acc ns) = pr acc ++ ns.flatMap (fun n => Tok.op .add :: pr (memoPy n te)) := by
+  induction ns generalizing acc with
+  | nil => simp [sumPy]
+  | cons n ns ih => simp [sumPy, ih, pr]
+
+/-- **`JoinedExpression` for any n**: the right-nested IR the `reduce` loop builds prints — because the
+`+` template writes no parentheses — exactly the tokens of the LEFT-nested Python sum; so by
+`skelPyP_parses` Python adds the flows left to right, as `sumTm`/`sumAcc` do -/
+theorem joined_flat (a : String) (as : List String) :
+    renderJ (joinedIR (a :: as)) = pr (sumPy .prev (memoPy a .prev) as) := by
+  rw [pr_sumPy]
+  induction as generalizing a with
+  | nil => simp [joinedIR, renderJ]
+  | cons b bs ih => simp [joinedIR, renderJ, ih b]
+end alln
+
 /-! ### Graphical functions: the generated LERP is a clamped interpolation -/
 
 theorem lerp_clamped_left (C : Carrier α) (p0 : α × α) (rest : List (α × α)) (x : α)
@@ -803,6 +1006,202 @@ theorem rational_time_euler_exact (C : Carrier α) (M : Model α) (tv : Nat → 
     (hA : (Ctx.mk C (ratTS start dt err tv) M tv (fun k => start + k * dt) N r (compile M)).Acyclic) :
     (Ctx.mk C (ratTS start dt err tv) M tv (fun k => start + k * dt) N r (compile M)).EulerExact :=
   xmile_run_eq_euler (normalize_keys_on_grid C M tv r N start dt err hdt herr _) hA (Or.inl rfl)
+
+/-! ### Wave 2 (2): time keys on FLOATS — `GridOK` from C05's `normalize_near`
+
+The generated `grid_time(t, dt, start)` is, operation for operation, `util.floating_point.normalize(t, dt,
+start, max(scale start, scale dt))`, which `Bptk.C05.normalize` models with every float operation rounded
+by an adversarial `fl` of bounded relative error (`Bptk.C05.Fl`).  The statements match: the labels are
+C05's `label F G k = fl (S + k·H)`, `t - self.dt` is `fl (t - fl H)`, and C05's explicit error `Budget`
+gives all six clauses of `GridOK`. -/
+
+section c05
+open Bptk.C05 (Fl Grid Budget label normalize normalize_near label_lt label_zero Qerr_mono Derr_mono Qerr Derr)
+
+
+/-- the generated class on floats as C05 models them: `prev` is the rounded subtraction, `norm` is
+`grid_time` = C05's `normalize` with the float constants `fl dt`, `fl start`; `num` embeds time values into
+the carrier (`TIME`) -/
+def flTS (F : Fl) (G : Grid) (num : ℚ → α) : TimeSem ℚ α where
+  prev := fun t => F.fl (t - G.h F)
+  norm := fun t => normalize F.fl t (G.h F) (G.s F) G.p
+  leStart := fun t => decide (t ≤ G.s F)
+  keyEq := fun a b => decide (a = b)
+  val := num
+
+theorem prev_err (F : Fl) (G : Grid) (N : ℕ) (r : ℚ) (B : Budget F G N r) (k : ℕ) (hk : k + 1 ≤ N) :
+    |F.fl (label F G ((k + 1 : ℕ) : ℤ) - G.h F) - G.g (k : ℤ)| ≤ r := by
+  have e0 := F.u_nonneg
+  have hH := G.H_pos
+  have hM := G.g_abs_le N (k + 1) hk
+  have hM0 : 0 ≤ G.M N := le_trans (abs_nonneg _) hM
+  have hh := B.h_pos
+  set e := F.u
+  set h := G.h F with hhd
+  set L := label F G ((k + 1 : ℕ) : ℤ) with hL
+  set y := L - h with hy
+  have l1 : |L - G.g ((k + 1 : ℕ) : ℤ)| ≤ e * |G.g ((k + 1 : ℕ) : ℤ)| := F.err _
+  have l2 : |L| ≤ (1 + e) * |G.g ((k + 1 : ℕ) : ℤ)| := F.abs_le _
+  have l3 : |h - G.H| ≤ e * G.H := by
+    have := F.err G.H; rwa [abs_of_pos hH] at this
+  have y1 : |y| ≤ (1 + e) * |G.g ((k + 1 : ℕ) : ℤ)| + h := by
+    have := abs_sub L h
+    rw [abs_of_pos hh] at this; linarith
+  have y2 := F.err y
+  have y3 : |y - G.g (k : ℤ)| ≤ e * |G.g ((k + 1 : ℕ) : ℤ)| + e * G.H := by
+    have hs := G.g_succ k
+    have e1 : y - G.g (k : ℤ) = (L - G.g ((k + 1 : ℕ) : ℤ)) - (h - G.H) := by rw [hy, hs]; ring
+    rw [e1]
+    have := abs_sub (L - G.g ((k + 1 : ℕ) : ℤ)) (h - G.H)
+    linarith
+  have y4 := abs_sub_le (F.fl y) y (G.g (k : ℤ))
+  have y5 : e * |y| ≤ e * ((1 + e) * |G.g ((k + 1 : ℕ) : ℤ)| + h) := mul_le_mul_of_nonneg_left y1 e0
+  have y6 : e * ((1 + e) * |G.g ((k + 1 : ℕ) : ℤ)|) ≤ e * ((1 + e) * G.M N) :=
+    mul_le_mul_of_nonneg_left (mul_le_mul_of_nonneg_left hM (by positivity)) e0
+  have y7 : e * |G.g ((k + 1 : ℕ) : ℤ)| ≤ e * G.M N := mul_le_mul_of_nonneg_left hM e0
+  have := B.hR
+  nlinarith
+
+theorem label_err_le (F : Fl) (G : Grid) (N : ℕ) (r : ℚ) (B : Budget F G N r) (k : ℕ) (hk : k ≤ N) :
+    |label F G (k : ℤ) - G.g (k : ℤ)| ≤ r := by
+  have e0 := F.u_nonneg
+  have hH := G.H_pos
+  have hM := G.g_abs_le N k hk
+  have hM0 : 0 ≤ G.M N := le_trans (abs_nonneg _) hM
+  have hh := B.h_pos
+  have l1 : |label F G (k : ℤ) - G.g (k : ℤ)| ≤ F.u * |G.g (k : ℤ)| := F.err _
+  have y7 : F.u * |G.g (k : ℤ)| ≤ F.u * G.M N := mul_le_mul_of_nonneg_left hM e0
+  have := B.hR
+  have h1 : 0 ≤ F.u * ((1 + F.u) * G.M N + G.h F) := by positivity
+  have h2 : 0 ≤ F.u * G.H := by positivity
+  linarith
+
+/-- **GridOK from C05's `normalize_near`** -/
+theorem gridOK_of_C05 (C : Carrier α) (M : Model α) (rk : Nat → Nat) (code : Nat → Option (Tm α))
+    (F : Fl) (G : Grid) (N : ℕ) (r : ℚ) (B : Budget F G N r) (num : ℚ → α) :
+    (Ctx.mk C (flTS F G num) M (fun k => num (label F G (k : ℤ))) (fun k => label F G (k : ℤ)) N rk code).GridOK := by
+  have key : ∀ k : ℕ, k ≤ N → ∀ x : ℚ, |x - G.g (k : ℤ)| ≤ r →
+      normalize F.fl x (G.h F) (G.s F) G.p = label F G (k : ℤ) := by
+    intro k hk x hx
+    have hKN : |(((k : ℕ) : ℤ) : ℚ)| ≤ (N : ℚ) := by
+      rw [abs_of_nonneg (by positivity)]; exact_mod_cast hk
+    exact normalize_near F G x k r B.h_pos hx
+      (lt_of_le_of_lt (Qerr_mono _ G.S G.H _ r _ _ F.u_nonneg B.h_pos G.H_pos hKN) B.hQ)
+      (lt_of_le_of_lt (Derr_mono _ G.S G.H (G.s F) _ _ _ F.u_nonneg B.h_pos G.H_pos hKN) B.hD)
+  refine ⟨?_, ?_, ?_, ?_, ?_, ?_⟩
+  · intro k hk
+    exact key k hk _ (label_err_le F G N r B k hk)
+  · intro k hk
+    have hk' : k + 1 ≤ N := hk
+    exact key k (by omega) _ (prev_err F G N r B k hk')
+  · show decide (label F G ((0 : ℕ) : ℤ) ≤ G.s F) = true
+    simp [label_zero F G]
+  · intro k hk
+    have hk' : k + 1 ≤ N := hk
+    show decide (label F G ((k + 1 : ℕ) : ℤ) ≤ G.s F) = false
+    have h0 : label F G ((0 : ℕ) : ℤ) = G.s F := by simpa using label_zero F G
+    have := label_lt F G N r B 0 (k + 1) (by omega) hk'
+    rw [h0] at this
+    simpa using this
+  · intro i j hi hj h
+    have h' : label F G (i : ℤ) = label F G (j : ℤ) := by simpa [flTS] using h
+    by_contra hne
+    rcases Nat.lt_or_gt_of_ne hne with hlt | hlt
+    · exact absurd h' (ne_of_lt (label_lt F G N r B i j hlt hj))
+    · exact absurd h'.symm (ne_of_lt (label_lt F G N r B j i hlt hi))
+  · intro k _; rfl
+
+/-- float time (C05's adversary `Fl` with its explicit `Budget`), normalising memoize ⇒ Euler-exact -/
+theorem float_time_euler_exact (C : Carrier α) (M : Model α) (rk : Nat → Nat)
+    (F : Fl) (G : Grid) (N : ℕ) (r : ℚ) (B : Budget F G N r) (num : ℚ → α)
+    (hA : (Ctx.mk C (flTS F G num) M (fun k => num (label F G (k : ℤ))) (fun k => label F G (k : ℤ)) N rk (compile M)).Acyclic) :
+    (Ctx.mk C (flTS F G num) M (fun k => num (label F G (k : ℤ))) (fun k => label F G (k : ℤ)) N rk (compile M)).EulerExact :=
+  xmile_run_eq_euler (gridOK_of_C05 C M rk _ F G N r B num) hA (Or.inl rfl)
+
+/-- exact rational time on a decimal grid with the REAL `normalize` (decimal rounding step included) and an
+adversarial error on `t - dt` -/
+def ratDecTS (G : Grid) (err : ℚ → ℚ) (num : ℚ → α) : TimeSem ℚ α where
+  prev := fun t => t - G.H + err t
+  norm := fun t => normalize id t G.H G.S G.p
+  leStart := fun t => decide (t ≤ G.S)
+  keyEq := fun a b => decide (a = b)
+  val := num
+
+theorem normalize_exact_near (G : Grid) (x : ℚ) (k : ℤ) (r : ℚ) (hr : r < G.H / 2) (hx : |x - G.g k| ≤ r) :
+    normalize id x G.H G.S G.p = G.g k := by
+  have hH := G.H_pos
+  have h := normalize_near Bptk.C05.Fl.exact G x k r (by simpa [Grid.h, Bptk.C05.Fl.exact] using hH) hx
+    (by
+      show Qerr 0 G.S G.H (id G.H) r |(k:ℚ)| < 1/2
+      unfold Qerr
+      simp only [id]
+      have : r / G.H < 1/2 := by rw [div_lt_iff₀ hH]; linarith
+      simpa using this)
+    (by
+      show Derr 0 G.S G.H (id G.S) (id G.H) |(k:ℚ)| < 1 / (2 * Bptk.C05.pow10 G.p)
+      unfold Derr
+      have := Bptk.C05.pow10_pos G.p
+      simp only [zero_mul, add_zero]
+      positivity)
+  simpa [Grid.h, Grid.s, Bptk.C05.Fl.exact, Bptk.C05.label] using h
+
+theorem normalize_keys_on_grid_dec (C : Carrier α) (M : Model α) (rk : Nat → Nat) (code : Nat → Option (Tm α))
+    (G : Grid) (N : ℕ) (err : ℚ → ℚ) (r : ℚ) (hr : r < G.H / 2) (herr : ∀ t, |err t| ≤ r) (num : ℚ → α) :
+    (Ctx.mk C (ratDecTS G err num) M (fun k => num (G.g (k : ℤ))) (fun k => G.g (k : ℤ)) N rk code).GridOK := by
+  have hH := G.H_pos
+  have hr0 : 0 ≤ r := le_trans (abs_nonneg _) (herr 0)
+  refine ⟨?_, ?_, ?_, ?_, ?_, ?_⟩
+  · intro k _
+    exact normalize_exact_near G _ k r hr (by simpa using hr0)
+  · intro k _
+    show normalize id (G.g ((k + 1 : ℕ) : ℤ) - G.H + err (G.g ((k + 1 : ℕ) : ℤ))) G.H G.S G.p = G.g (k : ℤ)
+    apply normalize_exact_near G _ k r hr
+    have e : G.g ((k + 1 : ℕ) : ℤ) - G.H + err (G.g ((k + 1 : ℕ) : ℤ)) - G.g (k : ℤ) = err (G.g ((k + 1 : ℕ) : ℤ)) := by
+      rw [G.g_succ]; ring
+    rw [e]; exact herr _
+  · show decide (G.g ((0 : ℕ) : ℤ) ≤ G.S) = true
+    simp [Grid.g]
+  · intro k _
+    show decide (G.g ((k + 1 : ℕ) : ℤ) ≤ G.S) = false
+    have : (0 : ℚ) < ((k + 1 : ℕ) : ℚ) * G.H := by positivity
+    rw [decide_eq_false_iff_not, not_le]
+    unfold Grid.g
+    push_cast at this ⊢
+    linarith
+  · intro i j _ _ h
+    have h' : G.g (i : ℤ) = G.g (j : ℤ) := by simpa [ratDecTS] using h
+    unfold Grid.g at h'
+    have h2 : ((i : ℤ) : ℚ) * G.H = ((j : ℤ) : ℚ) * G.H := by linarith
+    have := mul_right_cancel₀ (ne_of_gt hH) h2
+    exact_mod_cast this
+  · intro k _; rfl
+
+/-- non-vacuity: the budget is satisfiable (exact adversary, dt = 0.1 from 0, any horizon) -/
+theorem budget_exact_G01 (N : ℕ) : Budget Bptk.C05.Fl.exact Bptk.C05.G01 N 0 := by
+  have hp := Bptk.C05.pow10_pos Bptk.C05.G01.p
+  refine ⟨?_, ?_, ?_, ?_, ?_⟩
+  · show (0 : ℚ) < id Bptk.C05.G01.H
+    exact Bptk.C05.G01.H_pos
+  · show Qerr 0 _ _ _ 0 _ < 1/2
+    unfold Qerr; norm_num
+  · show Derr 0 _ _ _ _ _ < _
+    unfold Derr
+    simp only [zero_mul, add_zero]
+    positivity
+  · show (0 : ℚ) * _ + 0 * _ + 0 * _ ≤ 0
+    simp
+  · show 2 * (0 : ℚ) * _ < _
+    simp only [mul_zero, zero_mul]
+    exact Bptk.C05.G01.H_pos
+
+
+/-- non-vacuity with a genuinely inexact adversary: C05's counter-model rounding `flW` (which moves
+0.1 up) meets the budget on dt = 0.1, so all hypotheses of `gridOK_of_C05` are satisfiable there -/
+example (C : Carrier α) (M : Model α) (rk : Nat → Nat) (num : ℚ → α) :
+    (Ctx.mk C (flTS Bptk.C05.flW Bptk.C05.G01 num) M (fun k => num (label Bptk.C05.flW Bptk.C05.G01 (k : ℤ)))
+      (fun k => label Bptk.C05.flW Bptk.C05.G01 (k : ℤ)) 4 rk (compile M)).GridOK :=
+  gridOK_of_C05 C M rk _ Bptk.C05.flW Bptk.C05.G01 4 (1/500) Bptk.C05.budget_W num
+end c05
 
 /-! ### The reference really is the Euler recurrence: one integration step per grid interval -/
 
@@ -932,9 +1331,18 @@ example : runVal intCarrier (natTS (fun _ => (0 : Int))) 1 (compile wM) 40 [] 0 
 #print axioms exact_dt_partial
 #print axioms skeletons_parse
 #print axioms skelPyP_parses
+#print axioms nameIx_nmG
+#print axioms skelPyP_denotes
+#print axioms stock_text_denotes
+#print axioms skeletonTextOK_sound
+#print axioms joined_flat
 #print axioms lerp_interior
 #print axioms euler_stock_succ
 #print axioms normalize_keys_on_grid
 #print axioms rational_time_euler_exact
+#print axioms gridOK_of_C05
+#print axioms float_time_euler_exact
+#print axioms normalize_exact_near
+#print axioms normalize_keys_on_grid_dec
 
 end Bptk.C04
